@@ -71,6 +71,26 @@ impl<T: View> Default for HashSet<T> {
     { unimplemented!() }
 }
 impl<T: View> HashSet<T> {
+    /// std `HashSet::new`: empty
+    #[verifier::external_body]
+    pub fn new() -> (r: Self)
+        ensures r@ == Set::<T::V>::empty(),
+    { unimplemented!() }
+    /// std `HashSet::contains`
+    #[verifier::external_body]
+    pub fn contains(&self, value: &T) -> (r: bool)
+        ensures r == self@.contains(value@),
+    { unimplemented!() }
+    /// std `HashSet::is_empty`
+    #[verifier::external_body]
+    pub fn is_empty(&self) -> (r: bool)
+        ensures r == (self.order().len() == 0),
+    { unimplemented!() }
+    /// std `HashSet::remove`
+    #[verifier::external_body]
+    pub fn remove(&mut self, value: &T) -> (r: bool)
+        ensures final(self)@ == old(self)@.remove(value@), r == old(self)@.contains(value@),
+    { unimplemented!() }
     /// std `HashSet::insert`: adds the value, keeps an equal one already present
     #[verifier::external_body]
     pub fn insert(&mut self, value: T) -> (r: bool)
@@ -82,6 +102,11 @@ impl<T: View> HashSet<T> {
         ensures r == self.order().len(),
     { unimplemented!() }
 }
+/// R12: `$s.iter().collect::<Vec<_>>()` on a HashSet: the element references in iteration order
+#[verifier::external_body]
+pub fn hashset_refs<'a, T: View>(s: &'a HashSet<T>) -> (r: Vec<&'a T>)
+    ensures ref_views(r@) == s.order(),
+{ unimplemented!() }
 pub open spec fn ref_views<'a, T: View>(s: Seq<&'a T>) -> Seq<T::V> {
     Seq::new(s.len(), |i: int| (*s[i])@)
 }
@@ -161,3 +186,31 @@ impl<S> SecretBox<S> {
         ensures *r == *self.inner,
     { &*self.inner }
 }
+
+// ---- `impl Ord for String` / `<[T]>::sort` -------------------------------------------------------
+/// `String::cmp` (lexicographic comparison of the UTF-8 bytes), modelled as an
+/// UNINTERPRETED relation on the character sequences.  Assumption ORD: it is
+/// a strict total order (irreflexive, transitive, any two different strings
+/// are comparable) — the `Ord` contract of std.
+pub uninterp spec fn str_lt(a: Seq<char>, b: Seq<char>) -> bool;
+pub axiom fn axiom_str_lt_total(a: Seq<char>, b: Seq<char>)
+    ensures str_lt(a, b) || a == b || str_lt(b, a), !(str_lt(a, b) && str_lt(b, a)), !str_lt(a, a);
+pub axiom fn axiom_str_lt_trans(a: Seq<char>, b: Seq<char>, c: Seq<char>)
+    requires str_lt(a, b), str_lt(b, c),
+    ensures str_lt(a, c);
+pub open spec fn str_le(a: Seq<char>, b: Seq<char>) -> bool { a == b || str_lt(a, b) }
+pub open spec fn sorted_strs(o: Seq<Seq<char>>) -> bool {
+    forall|i: int, j: int| 0 <= i < j < o.len() ==> str_le(#[trigger] o[i], #[trigger] o[j])
+}
+/// R12: `$v.sort()` on a `Vec<&String>` (`<[T]>::sort` with `Ord for &String` =
+/// `Ord for String`): the result is sorted and is a permutation of the input.
+/// Of "permutation" the contract states the consequences that are used: same
+/// length, same elements, no element duplicated that was not.
+#[verifier::external_body]
+pub fn sort_string_refs(v: &mut Vec<&String>)
+    ensures
+        sorted_strs(ref_views(final(v)@)),
+        final(v)@.len() == old(v)@.len(),
+        forall|x: Seq<char>| ref_views(final(v)@).contains(x) <==> ref_views(old(v)@).contains(x),
+        ref_views(old(v)@).no_duplicates() ==> ref_views(final(v)@).no_duplicates(),
+{ unimplemented!() }
